@@ -45,8 +45,13 @@ def id_generator_model(orig):
     from .shim import _obj_symbolic
 
     def _id_generator(propositions, value, sign, prefix="VAR"):
-        if not have_ctx() or not (is_sym(value) or is_sym(sign) or isinstance(propositions, Seq)
-                                  or has_abstract(propositions) or _obj_symbolic(list(propositions), 0)):
+        if not have_ctx():
+            return orig(propositions, value, sign, prefix)
+        symbolic = is_sym(value) or is_sym(sign) or isinstance(propositions, Seq) or has_abstract(propositions)
+        if not symbolic:
+            propositions = list(propositions)
+            symbolic = any(getattr(type(p), "_pyvc_proxy", False) or is_sym(p.id) for p in propositions)
+        if not symbolic:
             return orig(propositions, value, sign, prefix)
         idh = z3.Function("idmix", z3.IntSort(), z3.IntSort())
 
